@@ -332,6 +332,10 @@ def run(ctx):  # noqa: C901, PLR0912, PLR0915
                  ['mdib_version', 'state_updates'] for c in calls_in(fi.node))
         ctx.ob('C04.R4', f'{name}', ok, f'{name} stores the states under the version it was given', fi=fi)
 
+    from . import common
+    common.version_group_setters_total(ctx, 'C04.R1')
+    common.copies_are_deep(ctx, 'C04.R4')   # the copies kept for periodic reports / handed to observers are deep
+    common.observers_all_notified(ctx, 'C04.R1')   # every commit reaches the report sender
     # ------------------------------------------------------------------ R5
     ip = repo.func('sdc11073.mdib.transactions.DescriptorTransaction._increment_parent_descriptor_version')
     gi = cfg_of(ip)
